@@ -66,7 +66,7 @@ package builder
 // fully stopped; the reported state names the new action.
 //@ func (*BuildClient).startExecution
 //@   props C08
-//@   requires bcInv(bc) && bc.request.CurrentState != nil && executionRequest != nil
+//@   requires bcInv(bc) && bc.request.CurrentState != nil
 //@   at call WithCancel#1 assert previous-action-fully-stopped: bc.executionCancellation == nil && bc.executionUpdates == nil
 //@   ensures inv: bcInv(bc)
 //@   ensures started-action-is-reported: r0 == nil ==>
